@@ -175,6 +175,46 @@ def r2_same_wiring(ctx):
         ctx.bad("wasm|scratch-args|%s" % ",".join(wscratch), "wasm/src/lib.rs", "scratch_arena arguments in the playground: %s" % wscratch)
 
 
+def r2b_cli_prints_the_library_rendering(ctx):
+    """What the CLI prints is, byte for byte, what the library (and the playground) computes: Diagnostics::report - the only
+    printing entry point - prints the result of render_ansi and renders nothing on its own."""
+    rp = ctx.need("diagnostics::Diagnostics::report")
+    fam = ctx.lib.family(rp.id)
+    own = []
+    printed = []
+    for g in fam:
+        ctx.touch(g)
+        for c in g.calls():
+            cal = c.callee or ""
+            last = cal.split("::")[-1]
+            if cal.startswith("diagnostics::Diagnostics::") and last != "render_ansi":
+                own.append((g, c))
+            if last in ("_print", "_eprint", "write_all", "write_fmt", "write_str") and ("std::io" in cal or "fmt::Write" in cal or "io::Write" in cal):
+                printed.append((g, c, " ".join(sh(ne(g.deep(a))) for a in c.args)))
+    ra = [c for g in fam for c in g.calls() if c.callee == "diagnostics::Diagnostics::render_ansi"]
+    if not ra:
+        ctx.bad("report|not-render_ansi", rp.where(), "Diagnostics::report no longer prints the result of render_ansi: the CLI's text is produced by a path of its own and can differ from what the library renders for the same program")
+    elif own:
+        ctx.bad("report|renders-itself|%s" % (own[0][1].callee or "").split("::")[-1], own[0][0].where(own[0][1].block), "Diagnostics::report calls %s itself: the CLI's output is assembled differently from render_ansi's (for instance the gutter width per diagnostic instead of per report), so the same program prints different bytes through the CLI and through the library" % (own[0][1].callee or "").split("::")[-1])
+    elif printed and all("render_ansi(self,src,filename)" in t for g, c, t in printed):
+        ctx.ok("report|prints-render_ansi", rp.where(printed[0][1].block), "print!(render_ansi(src, filename)) and nothing else")
+    else:
+        ctx.bad("report|prints-other", rp.where(), "Diagnostics::report prints something other than the result of render_ansi (%s)" % [t[:50] for g, c, t in printed][:2])
+    # who else prints diagnostics text?  only report (CLI) - render_ansi itself must not print
+    for g in ctx.lib.family("diagnostics::Diagnostics::render_ansi") + ctx.lib.family("diagnostics::Diagnostics::render_diagnostic"):
+        ctx.touch(g)
+    wr = ctx.lib.fns.get("diagnostics::Diagnostics::write_to_stream_or_buf")
+    if wr is not None:
+        ctx.touch(wr)
+        # the stream branch is taken only without a buffer; render_ansi always passes one
+        rd = ctx.need("diagnostics::Diagnostics::render_ansi")
+        passes_buf = any("Some" in sh(ne(rd.deep(a))) or "buf" in sh(ne(rd.expr(a, 3))) for c in rd.calls() if c.callee == "diagnostics::Diagnostics::render_diagnostic" for a in c.args[-1:])
+        if passes_buf:
+            ctx.ok("render_ansi|into-buffer", rd.where(), "render_ansi renders into its buffer (no printing of its own)")
+        else:
+            ctx.bad("render_ansi|into-buffer", rd.where(), "render_ansi no longer hands render_diagnostic a buffer: it prints instead of returning the text")
+
+
 def r3_scratch_rule(ctx):
     """The code base's own rule: a function that takes an Arena must pass it to scratch_arena."""
     n = 0
@@ -262,7 +302,7 @@ def r4_global_state(ctx):
         ctx.bad("statics|users|%s" % ",".join(sorted(users - allowed)), "src", "S_SCRATCH accessed from %s" % sorted(users - allowed))
 
 
-RULES = [("C14-R1", r1_exit_status), ("C14-R2", r2_same_wiring), ("C14-R3", r3_scratch_rule), ("C14-R4", r4_global_state)]
+RULES = [("C14-R1", r1_exit_status), ("C14-R2", r2_same_wiring), ("C14-R2b", r2b_cli_prints_the_library_rendering), ("C14-R3", r3_scratch_rule), ("C14-R4", r4_global_state)]
 
 EXPLANATION = (
     "R1: every return of cmd::run_source that yields ExitCode::SUCCESS is edge-dominated by 'no parse diagnostics', 'no "
@@ -275,6 +315,9 @@ EXPLANATION = (
     "flip/flop selection and the scoped reset. R4: the only mutable global state is S_SCRATCH, used only by init and "
     "scratch_arena, and init creates-or-resets every element. Not decided: equality of printed output between the two arena "
     "configurations or across run sequences (needs execution)."
+)
+EXPLANATION += (
+    " Added after a seeded change was missed: R2b Diagnostics::report - the CLI's only printing entry point - prints exactly the result of render_ansi and calls no other rendering routine, and render_ansi renders into its buffer."
 )
 ASSUMPTIONS = ["the wasm crate is analysed lexically (token scan of run_source's body)"]
 TRUSTED = ["rustc nightly MIR for the naija binary crate", "nsx exporter", "regular-expression scan of wasm/src/lib.rs"]
